@@ -119,11 +119,13 @@ def count_nodes(prog):
 # Alphabets
 
 class Custom(Exception):
-    """Application exception with a registered extractor."""
+    """Application exception with a registered extractor.  The extractor returns a dictionary that
+    lives on the exception object (like `lambda e: e.details`), i.e. the same object every time."""
 
     def __init__(self, code):
         Exception.__init__(self, "custom %s" % (code,))
         self.code = code
+        self.details = {"code": code}
 
 
 class CustomChild(Custom):
@@ -345,6 +347,7 @@ MSG_APIS = [
     "MessageType().write",
     "MessageType.log with raising serializer",
     "enclosing_action.log (an action that is open but not current)",
+    "write_traceback of an exception whose bool() raises",
 ]
 ACT_STYLES = [
     "with",
@@ -400,8 +403,8 @@ def valid_default(prog):
         else:
             if a.get("api", 0) in (4, 5, 6) and a.get("mt", 0):
                 return False  # typed / traceback messages have a fixed type
-            if a.get("api", 0) == 7:
-                return False  # failing serializers are C07's / C13's alphabet
+            if a.get("api", 0) in (7, 9):
+                return False  # failing serializers / hostile exceptions are C07's / C13's alphabet
             if a.get("api", 0) == 5 and a.get("fs", 0):
                 return False
     return True
@@ -455,7 +458,7 @@ class Interp(object):
 
     # -- execution
     def run(self):
-        register_exception_extractor(Custom, lambda e: {"code": e.code})
+        register_exception_extractor(Custom, lambda e: e.details)
 
         def bad_extractor(e):
             raise RuntimeError("extractor failed")
@@ -549,6 +552,13 @@ class Interp(object):
             else:
                 self.stack[-2]["children"].append(ref)
                 outer.log(mt, **fs)
+        elif api == 9:
+            ref = {"k": "m", "type": "eliot:traceback", "fields": {"reason": Ellipsis, "exception": "vkit.progs.BoolBoom", "traceback": Ellipsis}}
+            self._attach(ref)
+            try:
+                raise BoolBoom("tb%d" % fs["serial"])
+            except BoolBoom:
+                write_traceback()
         elif api == 7:
             ref = {"k": "m", "type": "app:badtyped", "fields": dict(fs), "dropped": True}
             self._attach(ref)
@@ -684,6 +694,7 @@ class Interp(object):
                 if not boundary(e):
                     raise
             else:
+                self._not_swallowed(s)
                 if got is not result and got != result:
                     self.problem("log_call-result", {"stmt": s})
                 ok()
@@ -722,6 +733,7 @@ class Interp(object):
                     if not boundary(e):
                         raise
                 else:
+                    self._not_swallowed(s)
                     ok()
                     self._extra_finish(action, xf)
             elif style == 1:
@@ -836,6 +848,12 @@ class Interp(object):
             self.deferred.append(lambda: contextvars.Context().run(remote))
         else:
             contextvars.Context().run(remote)
+
+    def _not_swallowed(self, s):
+        """The body raised (an exception is in flight) but the block ended normally."""
+        if self.in_flight is not None:
+            self.problem("application-exception-swallowed", {"stmt": s, "exc": type(self.in_flight).__name__})
+            self.in_flight = None
 
     def _extra_finish(self, action, xf):
         if xf == 1:
